@@ -11,7 +11,7 @@ as opaque callees).
 Exactness conditions (checked per call site, otherwise the site is left alone):
   * the callee is a private function with one definition the call can reach: `self._h(...)` / `Cls._h(...)` inside the
     defining class (and not overridden in a related class), or `_h(...)` in the defining module; not a generator, not
-    decorated (staticmethod allowed), no global / nonlocal / walrus, not recursive, no *args / **kwargs on either side,
+    decorated (staticmethod allowed), no global / nonlocal / walrus, not recursive, `*args[, **kwargs]` only as the last parameters,
     unsupplied parameters have constant defaults; nested defs / lambdas only if they do not rebind a renamed name;
   * statement forms `self._h(..)`, `t = self._h(..)`, `return self._h(..)`; a call nested in the expression of a simple
     statement is first hoisted into `tmp = self._h(..)` when everything evaluated before it is a plain name / constant /
@@ -33,7 +33,13 @@ expression, and / or / not where only the truth is used); private named tuples t
 loads forwarded into their single use (attribute reads taken as effect-free); `f(*t)` with t a tuple display -> f(a, b);
 `getattr(x, 'n')` -> x.n; lambda locals applied at their calls; `a, b = x, y` split (also conditional / attribute targets);
 `for .. break .. else: <exit>` + terminating tail -> early exits; `if c: T = a else: T = b` -> conditional expression,
-`while True: if c: break` -> `while not c`; `f(a) if c else g(a)` -> `(f if c else g)(a)`.  Last step: role outlining (outline.py).
+`while True: if c: break` -> `while not c` (also with the test in an explaining variable); `f(a) if c else g(a)` -> `(f if c else g)(a)`;
+`a, b = _NT(f1=x, f2=y)` of a private named tuple -> `a, b = x, y`; `x = L[k]` right after `L = [a, ..] + rest` -> `x = a`;
+`b = e; ..; a = b` -> written as `a` from the start; `L = []; for x in IT: L.append(E)` -> comprehension, index-cursor `while i < len(S)`
+-> `for`.  Helpers taking `*args, **kwargs` that they forward are inlined with the call's own arguments spread back; a method of the
+caller's object handed to such a helper and only called there is looked up in place; a helper pulled up into a base class of the
+package is inlined into the subclasses (one definition in the package).  Inlining is repeated once after the canonical forms (a call
+may only then have become visible).  Last step: role outlining (outline.py).
 """
 import ast
 import copy
